@@ -81,6 +81,16 @@ CLAIMED = {
                 note='trusted: simulated HTTP transport and clock; sqlite backend outside the simulator; creating responses are '
                      'excluded from the equality clause',
                 technique='deterministic simulation: full WSGI stack over simulated clock, file system and upstream with HTTP-500 injection; model-based history checking'),
+    'C12': dict(level='exploration', ref='DESIGN.md 6.6',
+                text='seeded cache contents (tiles stored at seeded simulated times, some in the same second; foreign objects: a '
+                     'second cache, lock files, stray files) x one cleanup task (level list/range/all; remove_all, remove_before as '
+                     'absolute time / relative age / file mtime, default; full extent or bbox coverage) built by the real '
+                     'CleanupConfiguration and executed by the real cleanup() - all three strategies, with the real '
+                     'TileCleanupWorker threads under the scheduler - on file (6 layouts), compact v1/v2 (SimFS), sqlite, mbtiles, '
+                     'geopackage (tmpfs); oracle from recorded timestamps and independent geometry: must-remove / must-keep / '
+                     'unspecified (same second, sub-pixel overlap), foreign objects untouched, task terminates without raising.',
+                note='trusted: SimFS walk/rmtree/mtime semantics, simulated clock; sqlite backends outside the simulator',
+                technique='deterministic simulation: simulated clock + file system (readdir order permuted), real cleanup workers under the baton scheduler, model-based checking'),
 }
 
 NA = {
@@ -96,7 +106,7 @@ NA = {
     'C18': 'well-formedness/escaping of responses is a function of the request bytes',
 }
 
-PENDING = ['C11', 'C12']
+PENDING = ['C11']
 
 
 def main():
